@@ -71,8 +71,7 @@ package core
 //@ func (*JApiCore).japiError(core, msg, i)
 //@   property C07,C01
 //@   requires core != nil && core.scanner != nil && core.scanner.file != nil
-//@   requires[C01,C07,@err-file] len(core.scanner.file.content.data) > 0 && i <= len(core.scanner.file.content.data)
-//@   requires[C07,@err-index-inside] i < len(core.scanner.file.content.data)
+//@   requires[C07,@err-index-inside-core] i < len(core.scanner.file.content.data)
 //@   ensures result != nil && fresh(result) && result.File == core.scanner.file && result.Index == i && result.Msg == msg
 
 //@ func japiErrorForLexeme(lex, msg)
@@ -96,3 +95,77 @@ package core
 //@   ensures imp(result == nil, coreScanInv(core))
 //@   ensures[C09,@include-keeps-pending] core.currentDirective == old(core.currentDirective) && core.currentContextDirective == old(core.currentContextDirective)
 //@   ensures scanner.itemsOK(core.scannersStack)
+
+// --- the scanning loop -------------------------------------------------------------------------------------------
+
+//@ extern strings.TrimSpace(s)
+//@   attr pure deterministic nopanic
+//@ extern (*regexp.Regexp).ReplaceAllString(re, src, repl)
+//@   attr pure deterministic nopanic
+
+//@ pred lexArgOK(core *JApiCore, f *fs.File, b bytes.Index, e bytes.Index, t scanner.LexemeType) :=
+//@     f != nil && f == core.scanner.file && b <= e + 1 && e + 1 <= len(f.content.data) && b <= len(f.content.data)
+//@     && t <= 8 && t != 4
+//@     && imp(in(t, scanner.Keyword, scanner.Parameter, scanner.ContextExplicitOpening, scanner.ContextExplicitClosing, scanner.Schema, scanner.Enum),
+//@            b <= e && b < len(f.content.data))
+
+// what attaching a directive to the tree may change: the context cursor, the root list, and Parent/Children links
+//@ modset treeMod(core) := core.currentContextDirective, core.currentDirective, core.directives, core.directives[:],
+//@     allfield(directive.Directive, Parent), allfield(directive.Directive, Children), allelems(*directive.Directive)
+
+//@ func (*JApiCore).processContext(core, d, root)
+//@   property C01,C11
+//@   requires core != nil && directive.dirOK(d) && root != nil
+//@   modifies core.currentContextDirective, *root, allfield(directive.Directive, Parent), allfield(directive.Directive, Children), allelems(*directive.Directive)
+//@   ensures imp(result == nil, core.currentContextDirective == d)
+
+//@ func (*JApiCore).processCurrentDirective(core)
+//@   property C01
+//@   requires core != nil && imp(core.currentDirective != nil, directive.dirOK(core.currentDirective))
+//@   modifies treeMod(core)
+//@   ensures imp(result == nil, core.currentDirective == nil)
+//@   ensures imp(result != nil, core.currentDirective == old(core.currentDirective))
+
+//@ func (*JApiCore).setCurrentDirective(core, keyword, keywordCoords)
+//@   property C01,C13,C19
+//@   requires coreScanInv(core) && keywordCoords.file != nil
+//@   requires keywordCoords.begin < len(keywordCoords.file.content.data) && keywordCoords.file == core.scanner.file
+//@   modifies core.currentDirective, core.scannersStack.includeTracers, core.scannersStack.includeTracers[:]
+//@   ensures imp(result == nil, coreScanInv(core))
+
+//@ func (*JApiCore).next(core, lexeme)
+//@   property C01,C09
+//@   requires coreScanInv(core) && lexArgOK(core, lexeme.file, lexeme.begin, lexeme.end, lexeme.type_)
+//@   modifies treeMod(core), core.scannersStack.includeTracers, core.scannersStack.includeTracers[:],
+//@            allfield(directive.Directive, Annotation), allfield(directive.Directive, BodyCoords), allfield(directive.Directive, HasExplicitContext),
+//@            allfield(directive.Directive, unnamedParameters), allelems(string), core.currentDirective.namedParameters[:]
+//@   ensures imp(result == nil, coreScanInv(core))
+
+//@ func (*JApiCore).drainCurrentScanner(core)
+//@   property C01,C09
+//@   requires coreScanInv(core)
+//@   modifies anything
+//@   ensures imp(result == nil, coreScanInv(core))
+//@   ensures core.scannersStack == old(core.scannersStack) && core.scannersStack != nil && scanner.itemsOK(core.scannersStack)
+//@ func (*JApiCore).drainCurrentScanner loop 1
+//@   invariant coreScanInv(core) && core.scannersStack == old(core.scannersStack)
+
+//@ func (*JApiCore).processEOF(core)
+//@   property C01,C11
+//@   requires coreScanInv(core)
+//@   modifies treeMod(core)
+//@   ensures imp(result == nil, coreScanInv(core) && core.currentDirective == nil)
+
+//@ func (*JApiCore).isScanningFinished(core)
+//@   property C01,C09
+//@   requires coreScanInv(core) && core.currentDirective == nil
+//@   modifies core.scanner, fields(core.scannersStack), core.scannersStack.uniqueFiles[:]
+//@   ensures imp(!result, coreScanInv(core))
+//@   ensures core.scannersStack == old(core.scannersStack) && scanner.itemsOK(core.scannersStack)
+
+//@ func (*JApiCore).scanProject(core)
+//@   property C01,C07,C09
+//@   requires coreScanInv(core)
+//@   modifies anything
+//@ func (*JApiCore).scanProject loop 1
+//@   invariant coreScanInv(core) && core.scannersStack == old(core.scannersStack)
